@@ -44,6 +44,7 @@ type deferred struct {
 
 // frame is one activation (the function being verified, or an inlined callee).
 type frame struct {
+	alias map[string]string // contract parameter name -> source parameter name (positional `params` of the contract)
 	entryClock int // allocation clock at entry (objects born later are local to this activation)
 	fn     *ssa.Function
 	vals   map[ssa.Value]Value
@@ -99,7 +100,7 @@ func (s *State) clone() *State {
 	}
 	for _, f := range s.frames {
 		nf := &frame{fn: f.fn, vals: make(map[ssa.Value]Value, len(f.vals)), defers: append([]deferred(nil), f.defers...),
-			locals: make(map[string]Value, len(f.locals)), localIsAddr: make(map[string]bool, len(f.localIsAddr)), entry: f.entry, entryClock: f.entryClock,
+			locals: make(map[string]Value, len(f.locals)), localIsAddr: make(map[string]bool, len(f.localIsAddr)), entry: f.entry, entryClock: f.entryClock, alias: f.alias,
 			openLoops: make(map[*ssa.BasicBlock]bool, len(f.openLoops)),
 			rangeVisited: make(map[*ssa.Range]Term, len(f.rangeVisited)), rangeMap: make(map[*ssa.Range]Value, len(f.rangeMap)),
 			namedResults: f.namedResults, loopTraceStart: make(map[*ssa.BasicBlock]int, len(f.loopTraceStart))}
